@@ -398,7 +398,7 @@ class Lexer:
     def read_escaped_character(self, position: int) -> EscapeSequence:
         """Read escaped character sequence"""
         body = self.source.body
-        value = _ESCAPED_CHARS.get(body[position + 1])
+        value = _ESCAPED_CHARS.get(body[position + 1 : position + 2])
         if value:
             return EscapeSequence(value, 2)
         raise GraphQLSyntaxError(
@@ -555,10 +555,10 @@ def read_16_bit_hex_code(body: str, position: int) -> int:
     # read_hex_digit() returns -1 on error. ORing a negative value with any other
     # value always produces a negative value.
     return (
-        read_hex_digit(body[position]) << 12
-        | read_hex_digit(body[position + 1]) << 8
-        | read_hex_digit(body[position + 2]) << 4
-        | read_hex_digit(body[position + 3])
+        read_hex_digit(body[position : position + 1]) << 12
+        | read_hex_digit(body[position + 1 : position + 2]) << 8
+        | read_hex_digit(body[position + 2 : position + 3]) << 4
+        | read_hex_digit(body[position + 3 : position + 4])
     )
 
 
